@@ -7,6 +7,8 @@
 //   alg.tvmb        TransVec*MatBase on position coded matrices of all shapes (reads out of bounds when rows < cols)
 //   alg.vec         all pairs of vectors over {-1,0,1,2} up to dim 3
 //   alg.sym.D       all symmetric matrices (dim<=3: {-1,0,1,2}; dim 4: {-1,0,1}): SymMat, CovMat, BandMat for all band widths, Cholesky
+//   alg.bandinv     BandMat::invBand: all strictly diagonally dominant band matrices over {-1,0,1} (dim<=5, all bands; larger dims while
+//                   the band has <= 10 cells) + structured fillings up to dim 9 band 5, x result band b..b+3 and the default call
 //   alg.svd.RxC     SVD, pinv, GSO on all matrices;   alg.svd0  zero dimensional operands;   alg.cond  Hilbert / scaled families
 //   nonconf         every binary operator x all shapes in {0..3}^4
 //   bfs.<Class>.<N>.<lvl>.<w>   copy/assign/move/reset histories, BFS to fixpoint
@@ -37,7 +39,7 @@ int main(int argc, char** argv) {
   int psi = 0, psn = 1;
   if (!cs.empty()) {
     if (cs.compare(0, 4, "bfs.") == 0) part = "d"; else if (cs.compare(0, 7, "nonconf") == 0) part = "c";
-    else if (cs.compare(0, 8, "alg.sym.") == 0 || cs.compare(0, 7, "alg.svd") == 0 || cs.compare(0, 9, "alg.gsomn") == 0 || cs.compare(0, 8, "alg.cond") == 0) part = "b"; else part = "a";
+    else if (cs.compare(0, 8, "alg.sym.") == 0 || cs.compare(0, 7, "alg.svd") == 0 || cs.compare(0, 9, "alg.gsomn") == 0 || cs.compare(0, 8, "alg.cond") == 0 || cs.compare(0, 11, "alg.bandinv") == 0) part = "b"; else part = "a";
     run.push_back(part);
   } else if (!part.empty()) { run.push_back(part); psi = si; psn = sn; }
   else if (sn % 8 == 0) {
